@@ -5,7 +5,7 @@ VERIF = os.path.dirname(os.path.dirname(os.path.abspath(__file__)))
 ALL = [f"C{i:02d}" for i in range(1, 21)]
 
 # commits in /repo whose message starts with `verif-hook:` (cfg-guarded verification hooks)
-HOOK_COMMITS = ["12ac8be", "d787177", "746a7e5"]
+HOOK_COMMITS = ["12ac8be", "d787177", "746a7e5", "18a6913"]
 
 CLAIMS = {
  "C04": dict(
@@ -73,31 +73,27 @@ CLAIMS = {
          "sigClosedB, Mono.presHypProg, Match.presHypRows/presHypNames) that gomlmodel c03pres / c03presmatch evaluates on the REAL "
          "Core/Mono/Lift/ANF dumps of every program and on every real match site, together with the conclusion on the model's output "
          "and the same judgement on the real output (evidence: pass_preservation)."
-         " Round 11 brings the typer's CONSTRAINT GENERATION inside the model (Model/Infer.lean: infer_expr / check_expr / "
-         "infer_call_expr / check_pat / the scope stack of localenv.rs / typecheck_fn, for literals, names, tuples, closures, let, "
-         "blocks, if, while, match on literal/variable/wildcard/tuple patterns, calls of locals / top-level monomorphic and generic "
-         "functions / arbitrary callees, operators, projections, field access; on top of the models of unify and solve). Props/Infer.lean: "
-         "infer_total (generation returns for every expression, expected type, environment and state — Vec indexing is modelled as "
-         "Option, a Rust panic as a stuck state, so an unguarded args[0] makes it unprovable), inferFn_total, infer_store_invariant / "
-         "inferFn_store_invariant (generation only creates keys: the store stays well-formed and acyclic and is refined; composed with "
-         "solve_acyclic), infer_sound_partial (if typecheck_fn ends without any diagnostic, the elaborated body satisfies the declarative "
-         "judgement Model/InferSpec.lean::Wt with types compared in the final store — uses have the type of their binder, references "
-         "are instances of the signature, callee / condition / branch / operand / pattern / projection obligations hold, the body has "
-         "the declared result type — from solve_eq_sound; under the decidable certificate justB, which the driver evaluates on every "
-         "function of the tie stream), genFn_justified (NO certificate: every obligation of every tree generation returns without a "
-         "diagnostic is an identity, a queued TypeEqual / StructFieldAccess, a binder, an inst_ty instance or a tuple component — a "
-         "second induction over the mutual recursor, Lemmas/InferJustGo.lean::go_just) and infer_sound / infer_sound_nofield (the "
-         "headline WITHOUT the certificate: no diagnostic => the body is well typed for every binder table that gives each binder "
-         "its type; field accesses judged only by 'the constraint was queued and solve ended clean'; method-call forms x.m(a) / "
-         "T::m(x, a) and array literals are in the model and the tie and under infer_total / infer_store_invariant, but excluded "
-         "from infer_sound by the explicit flag r.gen.outside = false). The tie also runs over the real corpus: 232 top-level "
-         "functions, 171 inside the model (168 compared, 0 differences), 61 outside (struct literals, struct patterns, trait static "
-         "calls), and over the accepted twins of the C03 call-form catalogue (654 functions compared; the seeded change in "
-         "infer_static_member_call_expr now breaks this tie). Constructor expressions / patterns and typed-int patterns are modelled "
-         "and tied, still outside infer_sound (ghost flag). Tie: gv infer observes the REAL typecheck_fn through one cfg(goml_verif) observer hook on "
-         "generated function bodies and compares queue before solve, fresh-key counts, diagnostic classes, recorded and final type of "
-         "every node with gomlmodel infer. Oracle without the model: every accepted generated function's REAL final types satisfy Wt; "
-         "every program with one injected error of 18 kinds is rejected by the typer.",
+         " Round 11 brings the typer's CONSTRAINT GENERATION inside the model (Model/Infer.lean, on top of the models of unify and solve; "
+         "Props/Infer.lean). FORMS MODELLED AND TIED (infer_expr / check_expr / infer_call_expr / check_pat / the scope stack of "
+         "localenv.rs / typecheck_fn and typecheck_impl_block): literals, name references, tuples, closures (both modes), let, blocks, "
+         "if, while, match, unary / binary operators, projections, field access, calls of locals / top-level monomorphic and generic "
+         "functions / arbitrary callees, x.m(a) on inherent methods, T::m(x, a) incl. the instantiation-specific-impl branch, array "
+         "literals, enum / struct constructor expressions, struct literals naming every field once; patterns: variable, wildcard, "
+         "literal, typed-int, tuple, constructor, struct (every field once). NOT modelled: trait static calls Tr::m(..), method calls on "
+         "a type-parameter receiver, dyn coercions, go, float-suffix literals, struct literals / patterns with unknown, duplicate or "
+         "missing fields, qualified (other-package) names. THEOREMS: infer_total / inferFn_total and infer_store_invariant / "
+         "inferFn_store_invariant for every modelled form (Vec indexing is Option, a Rust panic a stuck state); genFn_justified and "
+         "infer_sound / infer_sound_nofield (typecheck_fn ends without a diagnostic => the elaborated body satisfies the declarative "
+         "judgement Model/InferSpec.lean::Wt with types compared in the final store, modulo wildcard array lengths, for every binder "
+         "table; no per-function certificate) for all modelled forms EXCEPT x.m(a), T::m(x, a), array literals and struct literals, "
+         "which the explicit decidable hypothesis r.gen.outside = false excludes; field accesses are only judged by 'the "
+         "StructFieldAccess was queued and solve ended clean'; infer_sound_partial (certificate version) is kept and the certificate is "
+         "still evaluated on every tied function. TIE (gv infer through two add-only cfg(goml_verif) observer hooks, vs gomlmodel "
+         "infer: queue before solve, key counts, diagnostic classes, recorded and final type of every node): 1 500 generated functions, "
+         "the real corpus (74 programs, 304 functions incl. 72 impl methods: 279 inside the model, 275 compared, 25 outside) and the "
+         "accepted twins of the C03 call-form catalogue (1 462 functions, 1 406 compared); 0 differences; the seeded change in "
+         "infer_static_member_call_expr breaks this tie. ORACLE without the model: every accepted generated function's real final types "
+         "satisfy Wt; every program with one injected error of 19 kinds is rejected by the typer.",
     design_ref="§5 C03, §C03 — as built, §C03 pass preservation — as built (round 10), Seeded C03-dot-method-call-arity-unchecked (round 10), "
                "§The typer's unifier — as built (round 10), §The typer's constraint generation — as built (round 11)",
     note="Proved: the theorems above about Wt / the mono model. Validated only: that the real stage dumps satisfy the judgement (oracle on "
